@@ -156,7 +156,7 @@ def run_impl(case):
         lay = case.get("layout") or ("contig", "contig")
         junk = 0 if case["eos"] is None else case["eos"]
         ref = base._tensor_l(case["ref"], R, bf, lay[0], junk)
-        hyp = ref if case.get("alias") else base._tensor_l(case["hyp"], H, bf, lay[1], junk)
+        hyp = ref if (case.get("alias") and case["ref"] == case["hyp"]) else base._tensor_l(case["hyp"], H, bf, lay[1], junk)
         with warnings.catch_warnings():
             warnings.simplefilter("ignore")
             fn = _fn(case)
